@@ -443,3 +443,7 @@ func TestC14(t *testing.T) {
 			return map[string]any{"kind": c.Kind, "file_bytes": len(f.data), "body_start": f.bodyStart, "file_prefix": string(clip(f.data))[:min(200, len(clip(f.data)))]}
 		}})
 }
+
+func FuzzC14(f *testing.F) {
+	vh.Fuzz(f, vh.Spec[Case]{Name: "cuts", Gen: genCase, Run: runCase})
+}
